@@ -121,6 +121,9 @@ func (v verificationMethodValidator) verifyThumbprint(method *did.VerificationMe
 	}
 	// Only public keys may be published: a private (or symmetric) key would be disclosed to the whole network, for good.
 	switch keyAsJWK.(type) {
+	case jwk.ECDSAPrivateKey, jwk.RSAPrivateKey, jwk.OKPPrivateKey:
+		// must be checked first: the OKP private key type of jwx also satisfies the jwk.OKPPublicKey interface
+		return errors.New("publicKeyJwk must contain a public key")
 	case jwk.ECDSAPublicKey, jwk.RSAPublicKey, jwk.OKPPublicKey:
 		// OK
 	default:
